@@ -57,9 +57,12 @@ theorem chars8_build (chars : List Char) (hc : chars.length = 64) (c0 c1 c2 c3 c
     g2 6 (by omega), g2 7 (by omega)]
   rfl
 
-/-- The eight characters of an ADS-B identification message (TC 1–4, ME bits 9–56): any eight legal
+/-- Prefix lemma (the hypothesis `slice 40 96 bits = …` equates a slice that is 56 bits long on a full frame with a
+    48-bit `build`, so it can only be met when `bits.length = 88` — see `callsign_roundtrip_hyp_length`; the statement
+    about real 112-bit frames is `callsign_roundtrip_frame` below, which is derived from this one through `bits.take 88`):
+    the eight characters of an ADS-B identification message (TC 1–4, ME bits 9–56): any eight legal
     codes come back as the eight characters (`_` for space), whatever the other bits are. -/
-theorem callsign_roundtrip (bits : Bits) (tc : Nat) (htc : tcB bits = some tc) (h14 : 1 ≤ tc ∧ tc ≤ 4)
+theorem callsign_roundtrip_prefix88 (bits : Bits) (tc : Nat) (htc : tcB bits = some tc) (h14 : 1 ≤ tc ∧ tc ≤ 4)
     (c0 c1 c2 c3 c4 c5 c6 c7 : Nat)
     (hl : ∀ c ∈ [c0, c1, c2, c3, c4, c5, c6, c7], (idChar c).isSome)
     (hf : slice 40 96 bits = build (eight c0 c1 c2 c3 c4 c5 c6 c7)) :
@@ -140,5 +143,182 @@ theorem cs20_roundtrip (bits : Bits) (d : Bits) (hd : dataR bits = .val d)
 
 /-- non-vacuity: the hypotheses are met by a real frame from tests/ ("EZY85MH_") -/
 example : callsign (hex2bin "8D406B902015A678D4D220AA4BDA") = .val "EZY85MH_".toList := by decide +kernel
+
+/-! ### the round trip on real (112-bit) frames
+
+  `callsign` hands `slice 40 96 bits` (56 bits on a 112-bit frame) to the character reader, which
+  looks at its first 48 bits only.  The hypothesis `slice 40 96 bits = build (eight …)` of
+  `callsign_roundtrip_prefix88` above therefore forces `bits.length = 88`; the form below states the
+  hypothesis on ME bits 9–56 (`slice 40 88 bits`) and applies to frames of every length ≥ 88,
+  in particular to 112-bit frames, whatever the other bits are. -/
+
+theorem slice_take_of_le {α} (a b n : Nat) (l : List α) (hb : b ≤ n) :
+    slice a b (l.take n) = slice a b l := by
+  simp only [slice, List.drop_take, List.take_take]
+  congr 1
+  omega
+
+/-- the character reader looks at the first 48 bits only -/
+theorem chars8_take (chars : List Char) (cs : Bits) : chars8 chars (cs.take 48) = chars8 chars cs := by
+  have e : ∀ i, i < 8 → slice (6 * i) (6 * i + 6) (cs.take 48) = slice (6 * i) (6 * i + 6) cs :=
+    fun i hi => slice_take_of_le _ _ 48 cs (by omega)
+  unfold chars8
+  simp only [List.range, List.range.loop, Res.mapM]
+  rw [e 0 (by omega), e 1 (by omega), e 2 (by omega), e 3 (by omega), e 4 (by omega), e 5 (by omega),
+    e 6 (by omega), e 7 (by omega)]
+
+/-- `callsign` does not look past bit 88 -/
+theorem callsign_take88 (bits : Bits) : callsign (bits.take 88) = callsign bits := by
+  have htc : tcB (bits.take 88) = tcB bits := by
+    unfold tcB dfB
+    rw [slice_take_of_le 0 5 88 bits (by omega), slice_take_of_le 32 37 88 bits (by omega)]
+  have h1 : (slice 40 96 (bits.take 88)).take 48 = (slice 40 96 bits).take 48 := by
+    simp only [slice, List.drop_take, List.take_take]
+    congr 1
+  unfold callsign
+  rw [htc, ← chars8_take _ (slice 40 96 (bits.take 88)), h1, chars8_take]
+
+/-- **Round trip on frames of any length ≥ 88 (in particular 112 bits)**: any eight legal codes
+    placed in ME bits 9–56 come back as the eight characters (`_` for space), whatever the other
+    bits are. -/
+theorem callsign_roundtrip_frame (bits : Bits) (tc : Nat) (htc : tcB bits = some tc) (h14 : 1 ≤ tc ∧ tc ≤ 4)
+    (c0 c1 c2 c3 c4 c5 c6 c7 : Nat)
+    (hl : ∀ c ∈ [c0, c1, c2, c3, c4, c5, c6, c7], (idChar c).isSome)
+    (hf : slice 40 88 bits = build (eight c0 c1 c2 c3 c4 c5 c6 c7)) :
+    callsign bits = .val ([c0, c1, c2, c3, c4, c5, c6, c7].map (fun c => (idChar c).getD '#')) := by
+  have htc' : tcB (bits.take 88) = some tc := by
+    rw [← htc]
+    unfold tcB dfB
+    rw [slice_take_of_le 0 5 88 bits (by omega), slice_take_of_le 32 37 88 bits (by omega)]
+  have hf' : slice 40 96 (bits.take 88) = build (eight c0 c1 c2 c3 c4 c5 c6 c7) := by
+    rw [← hf]
+    simp only [slice, List.drop_take, List.take_take]
+    congr 1
+  rw [← callsign_take88]
+  exact callsign_roundtrip_prefix88 (bits.take 88) tc htc' h14 c0 c1 c2 c3 c4 c5 c6 c7 hl hf'
+
+/-- the hypothesis of `callsign_roundtrip_prefix88` can only be met by an 88-bit string (so that theorem says
+    nothing about 112-bit frames; `callsign_roundtrip_frame` does) -/
+theorem callsign_roundtrip_hyp_length (bits : Bits) (c0 c1 c2 c3 c4 c5 c6 c7 : Nat)
+    (hf : slice 40 96 bits = build (eight c0 c1 c2 c3 c4 c5 c6 c7)) : bits.length = 88 := by
+  have h := congrArg List.length hf
+  simp [slice_length, build_length, eight] at h
+  omega
+
+/-- non-vacuity of `callsign_roundtrip_frame` on a real 112-bit frame -/
+example : (hex2bin "8D406B902015A678D4D220AA4BDA").length = 112 ∧
+    tcB (hex2bin "8D406B902015A678D4D220AA4BDA") = some 4 ∧
+    slice 40 88 (hex2bin "8D406B902015A678D4D220AA4BDA") = build (eight 5 26 25 56 53 13 8 32) ∧
+    slice 40 96 (hex2bin "8D406B902015A678D4D220AA4BDA") ≠ build (eight 5 26 25 56 53 13 8 32) := by
+  decide +kernel
+
+/-! ### independence: changing one character code changes only that output position -/
+
+/-- Two identification messages built as in `callsign_roundtrip_frame` whose eight codes differ only in
+    code `k` (`[d0,…,d7] = [c0,…,c7].set k c'`): both decode to eight characters, output position
+    `j` is the Annex 10 character of code `j` of the respective frame, hence the two callsigns agree
+    at every position `j ≠ k`, and position `k` holds the character of `c_k` resp. `c'`. -/
+theorem callsign_char_independent (bits bits' : Bits) (tc tc' : Nat)
+    (htc : tcB bits = some tc) (h14 : 1 ≤ tc ∧ tc ≤ 4)
+    (htc' : tcB bits' = some tc') (h14' : 1 ≤ tc' ∧ tc' ≤ 4)
+    (c0 c1 c2 c3 c4 c5 c6 c7 d0 d1 d2 d3 d4 d5 d6 d7 : Nat)
+    (hl : ∀ c ∈ [c0, c1, c2, c3, c4, c5, c6, c7], (idChar c).isSome)
+    (hf : slice 40 88 bits = build (eight c0 c1 c2 c3 c4 c5 c6 c7))
+    (hf' : slice 40 88 bits' = build (eight d0 d1 d2 d3 d4 d5 d6 d7))
+    (k c' : Nat) (hc' : (idChar c').isSome)
+    (hd : [d0, d1, d2, d3, d4, d5, d6, d7] = [c0, c1, c2, c3, c4, c5, c6, c7].set k c') :
+    ∃ s s' : List Char, callsign bits = .val s ∧ callsign bits' = .val s' ∧
+      s.length = 8 ∧ s'.length = 8 ∧
+      (∀ j : Nat, s[j]? = ([c0, c1, c2, c3, c4, c5, c6, c7][j]?).map (fun c => (idChar c).getD '#')) ∧
+      (∀ j : Nat, s'[j]? = ([d0, d1, d2, d3, d4, d5, d6, d7][j]?).map (fun c => (idChar c).getD '#')) ∧
+      s' = s.set k ((idChar c').getD '#') ∧
+      (∀ j : Nat, j ≠ k → s[j]? = s'[j]?) ∧
+      (k < 8 → s[k]? = ([c0, c1, c2, c3, c4, c5, c6, c7][k]?).map (fun c => (idChar c).getD '#') ∧
+        s'[k]? = some ((idChar c').getD '#')) := by
+  have hl' : ∀ d ∈ [d0, d1, d2, d3, d4, d5, d6, d7], (idChar d).isSome := by
+    intro d hm
+    rw [hd] at hm
+    rcases List.mem_or_eq_of_mem_set hm with h | h
+    · exact hl d h
+    · rw [h]; exact hc'
+  have r := callsign_roundtrip_frame bits tc htc h14 c0 c1 c2 c3 c4 c5 c6 c7 hl hf
+  have r' := callsign_roundtrip_frame bits' tc' htc' h14' d0 d1 d2 d3 d4 d5 d6 d7 hl' hf'
+  have hs : [d0, d1, d2, d3, d4, d5, d6, d7].map (fun c => (idChar c).getD '#') =
+      ([c0, c1, c2, c3, c4, c5, c6, c7].map (fun c => (idChar c).getD '#')).set k ((idChar c').getD '#') := by
+    rw [hd, List.map_set]
+  refine ⟨_, _, r, r', by simp, by simp, fun j => by rw [List.getElem?_map],
+    fun j => by rw [List.getElem?_map], hs, ?_, ?_⟩
+  · intro j hj
+    rw [hs, List.getElem?_set_ne (Ne.symm hj)]
+  · intro hk
+    refine ⟨by rw [List.getElem?_map], ?_⟩
+    rw [hs, List.getElem?_set_self (by simpa using hk)]
+
+/-- BDS 2,0: the same for `cs20` (any codes `< 64`; the looked-up character is
+    `Tables.cs20Chars[c]`, which is the Annex 10 character by `chars_table_spec`). -/
+theorem cs20_char_independent (bits bits' : Bits) (d d' : Bits)
+    (hdt : dataR bits = .val d) (hdt' : dataR bits' = .val d')
+    (c0 c1 c2 c3 c4 c5 c6 c7 d0 d1 d2 d3 d4 d5 d6 d7 : Nat)
+    (hl : ∀ c ∈ [c0, c1, c2, c3, c4, c5, c6, c7], c < 64)
+    (hf : slice 8 56 d = build (eight c0 c1 c2 c3 c4 c5 c6 c7))
+    (hf' : slice 8 56 d' = build (eight d0 d1 d2 d3 d4 d5 d6 d7))
+    (k c' : Nat) (hc' : c' < 64)
+    (hd : [d0, d1, d2, d3, d4, d5, d6, d7] = [c0, c1, c2, c3, c4, c5, c6, c7].set k c') :
+    ∃ s s' : List Char, cs20 bits = .val s ∧ cs20 bits' = .val s' ∧
+      s.length = 8 ∧ s'.length = 8 ∧
+      (∀ j : Nat, s[j]? = ([c0, c1, c2, c3, c4, c5, c6, c7][j]?).map (fun c => Tables.cs20Chars.getD c '#')) ∧
+      (∀ j : Nat, s'[j]? = ([d0, d1, d2, d3, d4, d5, d6, d7][j]?).map (fun c => Tables.cs20Chars.getD c '#')) ∧
+      s' = s.set k (Tables.cs20Chars.getD c' '#') ∧
+      (∀ j : Nat, j ≠ k → s[j]? = s'[j]?) ∧
+      (k < 8 → s[k]? = ([c0, c1, c2, c3, c4, c5, c6, c7][k]?).map (fun c => Tables.cs20Chars.getD c '#') ∧
+        s'[k]? = some (Tables.cs20Chars.getD c' '#')) := by
+  have hl' : ∀ x ∈ [d0, d1, d2, d3, d4, d5, d6, d7], x < 64 := by
+    intro x hm
+    rw [hd] at hm
+    rcases List.mem_or_eq_of_mem_set hm with h | h
+    · exact hl x h
+    · rw [h]; exact hc'
+  have r := cs20_roundtrip bits d hdt c0 c1 c2 c3 c4 c5 c6 c7 (hl c0 (by simp)) (hl c1 (by simp))
+    (hl c2 (by simp)) (hl c3 (by simp)) (hl c4 (by simp)) (hl c5 (by simp)) (hl c6 (by simp))
+    (hl c7 (by simp)) hf
+  have r' := cs20_roundtrip bits' d' hdt' d0 d1 d2 d3 d4 d5 d6 d7 (hl' d0 (by simp)) (hl' d1 (by simp))
+    (hl' d2 (by simp)) (hl' d3 (by simp)) (hl' d4 (by simp)) (hl' d5 (by simp)) (hl' d6 (by simp))
+    (hl' d7 (by simp)) hf'
+  have hs : [d0, d1, d2, d3, d4, d5, d6, d7].map (fun c => Tables.cs20Chars.getD c '#') =
+      ([c0, c1, c2, c3, c4, c5, c6, c7].map (fun c => Tables.cs20Chars.getD c '#')).set k
+        (Tables.cs20Chars.getD c' '#') := by
+    rw [hd, List.map_set]
+  refine ⟨_, _, r, r', by simp, by simp, fun j => by rw [List.getElem?_map],
+    fun j => by rw [List.getElem?_map], hs, ?_, ?_⟩
+  · intro j hj
+    rw [hs, List.getElem?_set_ne (Ne.symm hj)]
+  · intro hk
+    refine ⟨by rw [List.getElem?_map], ?_⟩
+    rw [hs, List.getElem?_set_self (by simpa using hk)]
+
+/-- non-vacuity: the frame from tests/ ("EZY85MH_", codes 5 26 25 56 53 13 8 32) and the same frame
+    with code 2 changed from 25 (`Y`) to 1 (`A`) meet the hypotheses of `callsign_char_independent`
+    (k = 2, c' = 1); the real decoder returns `EZY85MH_` and `EZA85MH_`.  Likewise for `cs20` with
+    `KLM1017_` / `KLM1017S` (k = 7, c' = 19). -/
+example :
+    tcB (hex2bin "8D406B902015A678D4D220AA4BDA") = some 4 ∧
+    tcB (hex2bin "8D406B902015A078D4D220AA4BDA") = some 4 ∧
+    slice 40 88 (hex2bin "8D406B902015A678D4D220AA4BDA") = build (eight 5 26 25 56 53 13 8 32) ∧
+    slice 40 88 (hex2bin "8D406B902015A078D4D220AA4BDA") = build (eight 5 26 1 56 53 13 8 32) ∧
+    [5, 26, 1, 56, 53, 13, 8, 32] = [5, 26, 25, 56, 53, 13, 8, 32].set 2 1 ∧
+    (∀ c ∈ [5, 26, 25, 56, 53, 13, 8, 32, 1], (idChar c).isSome) ∧
+    callsign (hex2bin "8D406B902015A678D4D220AA4BDA") = .val "EZY85MH_".toList ∧
+    callsign (hex2bin "8D406B902015A078D4D220AA4BDA") = .val "EZA85MH_".toList := by
+  decide +kernel
+
+example :
+    (∃ d, dataR (hex2bin "A000083E202CC371C31DE0AA1CCF") = .val d ∧
+      slice 8 56 d = build (eight 11 12 13 49 48 49 55 32)) ∧
+    (∃ d, dataR (hex2bin "A000083E202CC371C31DD3AA1CCF") = .val d ∧
+      slice 8 56 d = build (eight 11 12 13 49 48 49 55 19)) ∧
+    [11, 12, 13, 49, 48, 49, 55, 19] = [11, 12, 13, 49, 48, 49, 55, 32].set 7 19 ∧
+    cs20 (hex2bin "A000083E202CC371C31DE0AA1CCF") = .val "KLM1017_".toList ∧
+    cs20 (hex2bin "A000083E202CC371C31DD3AA1CCF") = .val "KLM1017S".toList := by
+  refine ⟨⟨_, rfl, ?_⟩, ⟨_, rfl, ?_⟩, ?_, ?_, ?_⟩ <;> decide +kernel
 
 end PyModeS.C10
